@@ -35,10 +35,12 @@ inductive OnFail where
   deriving DecidableEq, Repr
 
 /-- which list's mutex, as written: the receiver (`self`/`this`), the second
-    list argument (`other`), a list created inside the function (`new`), or an
-    expression the translator cannot classify -/
+    list argument (`other`), a list created inside the function (`new`), the
+    lower- / higher-addressed of `self` and `other` (bound by
+    `let (a, b) = if Arc::as_ptr(&self.0) > Arc::as_ptr(&other.0) { (other, self) } else { (self, other) }`),
+    or an expression the translator cannot classify -/
 inductive Tgt where
-  | self_ | other | fresh | unknown
+  | self_ | other | fresh | lo | hi | unknown
   deriving DecidableEq, Repr
 
 inductive Ev where
@@ -126,10 +128,11 @@ def mayAlias (distinct : Bool) : Tgt → Tgt → Bool
   | .fresh, .fresh => true
   | .fresh, _ => false
   | _, .fresh => false
-  | .self_, .self_ => true
-  | .other, .other => true
   | .self_, .other => !distinct
   | .other, .self_ => !distinct
+  | .lo, .hi => !distinct
+  | .hi, .lo => !distinct
+  | _, _ => true     -- the same written target, or `lo`/`hi` against `self`/`other` (each is one of them)
 
 /-- no acquisition of a mutex that may already be held by the same call -/
 def noRelock : List Ev → List Tgt → Bool → Bool
@@ -137,5 +140,20 @@ def noRelock : List Ev → List Tgt → Bool → Bool
   | .acq _ _ t :: r, held, d => !(held.any (mayAlias d t)) && noRelock r (t :: held) d
   | .rel t :: r, held, d => noRelock r (held.erase t) d
   | .distinctOrReturn :: r, held, _ => noRelock r held true
+
+/-! ### lock order: two lists held at once are taken in address order -/
+
+/-- holding `h`, may the call wait for `t` without risking a wait cycle with
+    another call?  A list created inside the call is invisible to every other
+    thread (nobody else can hold it or wait for it); otherwise only the
+    address-ordered pair is allowed. -/
+def orderedPair (h t : Tgt) : Bool :=
+  h == .fresh || t == .fresh || (h == .lo && t == .hi)
+
+def lockOrderOk : List Ev → List Tgt → Bool
+  | [], _ => true
+  | .acq _ _ t :: r, held => held.all (fun h => orderedPair h t) && lockOrderOk r (t :: held)
+  | .rel t :: r, held => lockOrderOk r (held.erase t)
+  | .distinctOrReturn :: r, held => lockOrderOk r held
 
 end RotoV.MutexPanic
